@@ -10,7 +10,7 @@ from . import multi
 ID = 'C07'
 CLAIM = 'seeded search over target histories x worker-thread schedules: every per-target block / JSON element / policy verdict of a `-T` run must equal the output of a fresh single-target invocation against the same simulated server; coverage steered by (predecessor -> successor) archetype pairs on one worker'
 TRUST = "trusted base: ThreadPoolExecutor algorithm transcribed from CPython 3.12 with kernel-decided scheduling (one thread runs at a time, pre-emption at simulated calls), simulated servers; verbose progress chatter and the multi-target-only '(gen) target:' line are ignored"
-TECHNIQUE = 'deterministic simulation with a seeded thread scheduler (baton-passing real threads), differential oracle against fresh single-target invocations'
+TECHNIQUE = 'deterministic simulation with a seeded thread scheduler (baton-passing real threads, simulated locks/events/pools, virtual clock for the connection-rate check), differential oracle against fresh single-target invocations'
 LEVEL = 'exploration'
 BUDGET = {'quick': 200, 'thorough': 2400}
 NCASES = {'quick': 900, 'thorough': 6000}
